@@ -423,6 +423,40 @@ def c04_all_type_spellings(kind: int, r: int, a: int, role: int) -> bool:
     return ok
 
 
+VERBATIM_DEFAULTS = ['"This: "', '"T"', "'T'", '"a This b, T"', 'Outer::This', 'ns::T', 'std::vector<string>{"T", "This"}', 'opts.T', 'Tolerance(T_MAX)', '"U and T and This"']
+
+
+def c04_default_verbatim(d: int, flavour: int, role: int) -> bool:
+    """
+    Default-value text that merely MENTIONS a template parameter's spelling or `This` — inside string / character
+    literals, as a member or namespace-qualified name, inside a longer identifier — reaches `py::arg(..) = ...` exactly
+    as written, in plain and templated classes, member templates and function templates.
+    pre: 0 <= d < len(VERBATIM_DEFAULTS) and 0 <= flavour <= 2 and 0 <= role <= 3
+    post: _
+    """
+    d, flavour, role = pick(d, 0, len(VERBATIM_DEFAULTS)), pick(flavour, 0, 3), pick(role, 0, 4)
+    with concrete():
+        dv = VERBATIM_DEFAULTS[d]
+        cls_t = "template<T = {double}> " if flavour == 1 else ""
+        mem_t = "template<U = {int}> " if flavour == 2 else ""
+        first = "const T& x" if flavour == 1 else ("const U& x" if flavour == 2 else "double x")
+        sig = "%s, const string& label = %s, int n = 3" % (first, dv)
+        if role == 3:
+            decl = "%svoid doIt(%s);" % ("template<T = {double}> " if flavour == 1 else mem_t, sig)
+            text = PRELUDE + "namespace top { " + decl + " }"
+        else:
+            member = ["%sCls(%s);", "%svoid doIt(%s) const;", "%sstatic void doIt(%s);"][role] % (mem_t, sig)
+            text = PRELUDE + "namespace top { %sclass Cls { %s }; }" % (cls_t, member)
+        try:
+            body = pipe.pybind_body(text)
+        except Exception as ex:
+            body = "raised %r" % ex
+        want = 'py::arg("label") = %s, py::arg("n") = 3' % dv
+        ok = want in body or _fail(text=text, declared_default=dv, body=body[-500:])
+    reached({"default": VERBATIM_DEFAULTS[d], "flavour": flavour, "role": role})
+    return ok
+
+
 def c04_argname(name: str) -> bool:
     """
     Argument names are copied verbatim into the lambda parameter, the call and py::arg (one symbolic spelling).
@@ -469,6 +503,8 @@ def conds(tier):
                 bounds="typedef'd instantiation in the template's namespace / in a nested namespace x 4 base forms x 0-2 class enums x 3 operator sets x namespace depth 0-2%s" % (" x 0-3 properties" if not q else "; properties derived")),
         xh.Cond(M, "c04_all_type_spellings", t(420, 2400), path_timeout=60, kind=sb, examples=["kind=0, r=0, a=43, role=0", "kind=1, r=11, a=27, role=1", "kind=1, r=47, a=127, role=2", "kind=0, r=0, a=90, role=2"],
                 bounds="every leaf of the C01 type algebra (128) and %s templated roots over it as first parameter of a method / static / function (%s)" % ("every fourth (root, leaf) pair of the 48 x 128" if not q else "every sixteenth (root, leaf) pair of the 48 x 128", "3 roles" if not q else "role derived")),
+        xh.Cond(M, "c04_default_verbatim", t(200, 600), kind=sb, examples=["d=0, flavour=0, role=1", "d=1, flavour=1, role=0", "d=2, flavour=2, role=3", "d=9, flavour=2, role=2"],
+                bounds="%d default texts mentioning T / U / This x {plain, class template, member or function template} x 4 roles" % len(VERBATIM_DEFAULTS)),
         xh.Cond(M, "c04_kf_parent_qualifiers", 60, path_timeout=60, kind=sb, bounds="witness of a listed known finding", needs_confirm=False),
         xh.Cond(M, "c04_argname", t(120, 600), examples=["name='pose'"], bounds="all argument names of length <= 6"),
     ]
